@@ -756,6 +756,9 @@ func (i *Lifecycler) initRing(ctx context.Context) error {
 			level.Warn(i.logger).Log("msg", "instance found in ring as JOINING, setting to PENDING",
 				"ring", i.RingName)
 			instanceDesc.State = PENDING
+			// Update timestamp to give gossiping client a chance register ring change.
+			instanceDesc.Timestamp = time.Now().Unix()
+			ringDesc.Ingesters[i.ID] = instanceDesc
 			return ringDesc, true, nil
 		}
 
